@@ -39,30 +39,37 @@ class FakeFile(object):
         return out
 
 class FakeVirt(object):
-    """Callable address space for bin_stream_virt."""
-    def __init__(self, data):
+    """Callable address space for bin_stream_virt; with base > 0 a sparse image
+    whose bytes live at [base, base+len) (e.g. a 64-bit image base)."""
+    def __init__(self, data, base=0):
         self.data = data
+        self.base = base
         self.reads = []
     def __len__(self):
-        return len(self.data)
+        return self.base + len(self.data)
     def __call__(self, start, stop, section=None):
-        self.reads.append((start, stop - start, len(self.data[start:stop])))
-        return self.data[start:stop]
+        a, b = start - self.base, stop - self.base
+        out = self.data[max(a, 0):max(b, 0)] if b > 0 else b''
+        if a < 0:
+            out = b'\0' * (min(b, 0) - a) + out
+        self.reads.append((a, stop - start, len(out)))
+        return out
     def __getitem__(self, item):
         return self.data[item]
 
 BACKENDS = ('str', 'file', 'virt')
 
-def open_stream(kind, image, off, eio_at=None):
-    """Returns (stream, backing) via the real bin_stream factory."""
+def open_stream(kind, image, off, eio_at=None, base=0):
+    """Returns (stream, backing) via the real bin_stream factory.  base != 0
+    only for the virt back end: the stream is positioned at base+off."""
     s = sut()
     if kind == 'str':
         return s.B.bin_stream(image, off), None
     if kind == 'file':
         f = FakeFile(image, eio_at)
         return s.B.bin_stream(f, off), f
-    v = FakeVirt(image)
-    return s.B.bin_stream(v, off), v
+    v = FakeVirt(image, base)
+    return s.B.bin_stream(v, base + off), v
 
 def attrib_of(mode):
     s = sut()
@@ -93,7 +100,7 @@ def dis_bytes(b, mode):
     a = attrib_of(mode)
     return s.A.x86mnemo.dis(b, a) if a else s.A.x86mnemo.dis(b)
 
-def check_decode(image, kind, off, mode, stats, eio_at=None):
+def check_decode(image, kind, off, mode, stats, eio_at=None, base=0, pristine=None):
     """One decode at offset off of image through back end kind, with all the
     oracles.  Returns None or a violation dict."""
     s = sut()
@@ -101,7 +108,7 @@ def check_decode(image, kind, off, mode, stats, eio_at=None):
     ref = outcome(lambda: view(dis_bytes(suffix, mode)))
     # open + decode through the stream
     try:
-        st, backing = open_stream(kind, image, off, eio_at)
+        st, backing = open_stream(kind, image, off, eio_at, base)
     except IOError:
         if off > len(image):
             stats['start-beyond-end:ioerror'] = stats.get('start-beyond-end:ioerror', 0) + 1
@@ -140,15 +147,24 @@ def check_decode(image, kind, off, mode, stats, eio_at=None):
         stats['out_of_scope'][key] = stats['out_of_scope'].get(key, 0) + 1
     if gotv != refv:
         return {'class': 'R1:suffix-equivalence', 'detail': {'backend': kind, 'off': off, 'mode': mode, 'ref': refv, 'got': gotv}}
+    if pristine is not None:
+        # history independence of the decoder inside this process: the same suffix decoded in a pristine
+        # process (memoised by the <= 16 bytes a decode can consume) must give the same instruction
+        pv = pristine(suffix[:16], mode, len(suffix) > 16)
+        if pv is not None and pv != ('ok', refv):
+            stats['pristine-mismatch'] = stats.get('pristine-mismatch', 0) + 1
+            return {'class': 'R1:differs-from-pristine-process', 'detail': {'off': off, 'mode': mode, 'bytes': suffix[:16].hex(),
+                                                                             'pristine': pv[1], 'here': refv}}
+        stats['pristine-checked'] = stats.get('pristine-checked', 0) + 1
     if i is None:
         stats['decode-none'] = stats.get('decode-none', 0) + 1
         return None
     stats['decode-ok'] = stats.get('decode-ok', 0) + 1
     l = i.l
-    if i.offset != off:
-        return {'class': 'R1:offset-not-recorded', 'detail': {'backend': kind, 'off': off, 'recorded': canon.ser_val(i.offset)}}
-    if st.offset != off + l:
-        return {'class': 'R1:stream-not-after-instruction', 'detail': {'backend': kind, 'off': off, 'l': l, 'stream_offset': canon.ser_val(st.offset)}}
+    if i.offset != base + off:
+        return {'class': 'R1:offset-not-recorded', 'detail': {'backend': kind, 'off': off, 'base': base, 'recorded': canon.ser_val(i.offset)}}
+    if st.offset != base + off + l:
+        return {'class': 'R1:stream-not-after-instruction', 'detail': {'backend': kind, 'off': off, 'base': base, 'l': l, 'stream_offset': canon.ser_val(st.offset)}}
     if bytes(i.b) != image[off:off + l]:
         return {'class': 'R1:bytes', 'detail': {'backend': kind, 'off': off, 'l': l}}
     # R2: no over-read
@@ -163,7 +179,7 @@ def check_decode(image, kind, off, mode, stats, eio_at=None):
     for k in range(l):
         cut = image[:off + k]
         try:
-            st2, b2 = open_stream(kind, cut, off)
+            st2, b2 = open_stream(kind, cut, off, None, base)
         except IOError:
             return {'class': 'R3:open-raises', 'detail': {'backend': kind, 'off': off, 'cut': k}}
         t = outcome(lambda: s.A.x86mnemo.dis(st2, a) if a else s.A.x86mnemo.dis(st2))
@@ -180,7 +196,7 @@ def check_decode(image, kind, off, mode, stats, eio_at=None):
 
 # ------------------------------------------------------------ run = sweep
 
-def run_ops(image, ops):
+def run_ops(image, ops, pristine=None):
     """Execute a list of stream ops (several clients interleaved), each decode
     checked.  Streams live across ops; returns (violation or None, stats)."""
     s = sut()
@@ -188,6 +204,7 @@ def run_ops(image, ops):
     streams = {}
     img = {}
     handles = {}
+    bases = {}
     for n, op in enumerate(ops):
         c = op['c']
         if op['op'] == 'open':
@@ -200,10 +217,11 @@ def run_ops(image, ops):
                     streams[c] = (s.B.bin_stream(prev, op['off']), prev)
                     stats['handle-reused'] = stats.get('handle-reused', 0) + 1
                 else:
-                    streams[c] = open_stream(op['kind'], data, op['off'])
+                    streams[c] = open_stream(op['kind'], data, op['off'], None, op.get('base', 0) if op['kind'] == 'virt' else 0)
+                bases[c] = op.get('base', 0) if op['kind'] == 'virt' else 0
                 if op['kind'] == 'file':
                     handles[c] = streams[c][1]
-                if streams[c][0].offset != op['off']:
+                if streams[c][0].offset != bases[c] + op['off']:
                     return {'class': 'R1:open-not-positioned', 'op': n, 'detail': {'backend': op['kind'], 'off': op['off'],
                                                                                    'stream_offset': canon.ser_val(streams[c][0].offset)}}, stats
             except IOError:
@@ -216,11 +234,12 @@ def run_ops(image, ops):
         elif op['op'] == 'seek':
             if c in streams:
                 st = streams[c][0]
-                if op.get('via') == 'attr':
-                    st.offset = op['off']
+                want = bases.get(c, 0) + op['off']
+                if op.get('via') == 'attr' or want > 0xFFFFFFFF:     # setoffset() is documented to wrap at 4 GiB
+                    st.offset = want
                 else:
-                    st.setoffset(op['off'])
-                if st.offset != op['off']:
+                    st.setoffset(want)
+                if st.offset != want:
                     return {'class': 'R1:seek-not-honoured', 'op': n, 'detail': {'backend': img[c][1], 'requested': op['off'],
                                                                                  'stream_offset': canon.ser_val(st.offset)}}, stats
         elif op['op'] == 'dis':
@@ -228,11 +247,14 @@ def run_ops(image, ops):
                 continue
             st, backing = streams[c]
             data, kind = img[c]
-            off = st.offset
+            base = bases.get(c, 0)
+            off = st.offset - base
+            if off < 0:
+                continue
             mode = op.get('mode')
             # the checked decode works on a fresh stream at the same offset (oracles need the read log
             # from zero); then the client's own long-lived stream performs the same decode and must agree
-            v = check_decode(data, kind, off, mode, stats, op.get('eio_at'))
+            v = check_decode(data, kind, off, mode, stats, op.get('eio_at'), base, pristine if op.get('px') else None)
             if v:
                 v['op'] = n
                 return v, stats
@@ -245,19 +267,19 @@ def run_ops(image, ops):
                 if view(mine[1]) != view(fresh[1]):
                     return {'class': 'R1:long-lived-stream-differs', 'op': n, 'detail': {'backend': kind, 'off': off}}, stats
                 if mine[1] is not None:
-                    if st.offset != off + mine[1].l:
+                    if st.offset != base + off + mine[1].l:
                         return {'class': 'R1:stream-not-after-instruction', 'op': n, 'detail': {'backend': kind, 'off': off, 'long_lived': True}}, stats
-                    if mine[1].offset != off:
+                    if mine[1].offset != base + off:
                         return {'class': 'R1:offset-not-recorded', 'op': n, 'detail': {'backend': kind, 'off': off, 'long_lived': True}}, stats
                 else:
                     # failed decode leaves the offset unspecified: resynchronise the client one byte further
                     try:
-                        st.setoffset(min(off + 1, len(data))) if hasattr(st, 'setoffset') else None
+                        st.offset = base + min(off + 1, len(data))
                     except Exception:
                         pass
             else:
                 try:
-                    st.setoffset(min(off + 1, len(data)))
+                    st.offset = base + min(off + 1, len(data))
                 except Exception:
                     pass
     return None, stats
@@ -332,12 +354,15 @@ def gen_run(rng):
     image, bounds = gen_image(rng)
     nclients = rng.choice([1, 1, 2, 3])
     fault_p = rng.choice([0.0, 0.1, 0.3])
+    px_p = rng.choice([0.0, 0.0, 0.5])
     ops = []
     for c in range(nclients):
         kind = rng.choice(BACKENDS)
         lo = max(0, min(bounds) - 8) if bounds else 0
         start = rng.choice(bounds) if rng.random() < 0.7 else rng.randrange(lo, len(image) + 1)
         op = {'op': 'open', 'c': c, 'kind': kind, 'off': start}
+        if kind == 'virt' and rng.random() < 0.25:
+            op['base'] = rng.choice([0x100000000, 0x140000000, 0xFFFFFFF0, 0x7FFFFFFF0])   # sparse image at / beyond 4 GiB
         if rng.random() < fault_p:
             op['eof'] = rng.randrange(lo, len(image) + 1)
             if rng.random() < 0.3:
@@ -349,6 +374,8 @@ def gen_run(rng):
         k = rng.random()
         if k < 0.75:
             op = {'op': 'dis', 'c': c}
+            if rng.random() < px_p:
+                op['px'] = 1
             if rng.random() < 0.12:
                 op['mode'] = 16
             if rng.random() < fault_p * 0.5:
